@@ -326,6 +326,12 @@ func blockOnListChangeWorker(
 		ctx.l.Tracef("waiting for %s to get a list item until %s", keyNameStr(), end.Format(time.StampMilli))
 	}
 
+	// a socket client is watched for disconnection while it is blocked
+	if pw, watchable := ctx.cs.client.(interface{ watchPeer() func() }); watchable {
+		stopWatching := pw.watchPeer()
+		defer stopWatching()
+	}
+
 	verifPoint("block.beforeregister", ctx.cs.id)
 	ws := blockFn()
 	defer ctx.dsc.ds.leaveListBlock(ws)
